@@ -227,8 +227,18 @@ Fixpoint take_frings (n : nat) (l : list Z) : list (list fpt) * list Z :=
 
 Definition NEWFEATURE_EMPTY_OK : bool := true.   (* after the repair of F9 (false = pinned tree) *)
 
+(* sjson.Delete(members, "feature") (feature.go:27-29): the first member whose decoded key is
+   "feature" goes; a second one, if any, stays *)
+Definition s_feature : list Z := [102; 101; 97; 116; 117; 114; 101].
+Fixpoint delete_first_key (k : list Z) (ms : list (jkey * jv)) : list (jkey * jv) :=
+  match ms with
+  | [] => []
+  | kv :: r => if bytes_eqb (snd (fst kv)) k then r else kv :: delete_first_key k r
+  end.
+
 (* NewFeature (feature.go:21-35) on a members text that is a JSON object *)
-Definition new_feature_extra (ms : list (jkey * jv)) : option extra :=
+Definition new_feature_extra (ms0 : list (jkey * jv)) : option extra :=
+  let ms := delete_first_key s_feature ms0 in
   match ms with
   | [] => if NEWFEATURE_EMPTY_OK then None else Some {| dims := 0; values := []; members := Some [] |}
   | _ => Some {| dims := 0; values := []; members := Some ms |}
